@@ -80,3 +80,28 @@ func init() {
 		depVerdict(w, r, "x")
 	})
 }
+
+func init() {
+	debugHooks = append(debugHooks, func(w *World) {
+		if os.Getenv("PRUNNERLINT_DUMP") != "nonnil" {
+			return
+		}
+		w.nonNilInv = 1
+		for _, fn := range w.ModFuncs {
+			allInstrs(fn, func(in ssa.Instruction) {
+				switch x := in.(type) {
+				case *ssa.MapUpdate:
+					if w.isJobPtr(x.Value.Type()) && !w.knownNonNil(x.Value, in, 0) {
+						fmt.Println("mapupdate", FuncName(fn), w.InstrPos(in), w.AP(x.Value), fmt.Sprintf("%T", w.Resolve(x.Value)))
+					}
+				case *ssa.Store:
+					if _, isIA := x.Addr.(*ssa.IndexAddr); isIA && w.isJobPtr(x.Val.Type()) && !w.knownNonNil(x.Val, in, 0) {
+						fmt.Println("store", FuncName(fn), w.InstrPos(in), w.AP(x.Val), fmt.Sprintf("%T", w.Resolve(x.Val)))
+					}
+				}
+			})
+		}
+		w.nonNilInv = 0
+		fmt.Println("invariant:", w.nonNilInvariant())
+	})
+}
